@@ -214,7 +214,15 @@ impl Op {
         match self {
             Op::Mk(k, v) => format!("create[{}]=>{{{}}}", a(k), a(v)),
             Op::Del(k) => format!("delete[{}]", a(k)),
-            Op::Upd(kind, k, w) => format!("update{kind}[{}] to {{{}}}", a(k), a(w)),
+            Op::Upd(kind, k, w) => {
+                let from = match kind {
+                    0 => "=>{all fields: current values}",
+                    1 => "=>{all fields: ?}",
+                    2 => "",
+                    _ => "=>{first field: current value, others: ?}",
+                };
+                format!("update[{}]{from} to {{{}}}", a(k), a(w))
+            }
             Op::CrUp(k, v, w) => format!("create[{}]=>{{{}}};update to {{{}}}", a(k), a(v), a(w)),
             Op::CrDel(k, v) => format!("create[{}]=>{{{}}};delete", a(k), a(v)),
             Op::DelCr(k, w) => format!("delete[{}];create=>{{{}}}", a(k), a(w)),
@@ -312,11 +320,12 @@ struct Worker<'a> {
     machine: &'a Machine,
     seed: u64,
     tag: i64,
+    all_literals: bool,
 }
 
 impl<'a> Worker<'a> {
     fn new(parent: &Report, machine: &'a Machine, seed: u64) -> Self {
-        Worker { sys: Sys::new(machine, seed), rep: parent.worker(), bad: MinCases::default(), states: BTreeSet::new(), machine, seed, tag: 0 }
+        Worker { sys: Sys::new(machine, seed), rep: parent.worker(), bad: MinCases::default(), states: BTreeSet::new(), machine, seed, tag: 0, all_literals: false }
     }
 
     /// The storage provider keeps every graph; start over now and then to bound memory.
@@ -328,11 +337,13 @@ impl<'a> Worker<'a> {
     }
 
     fn fail(&mut self, s: &Schema, group: String, hist: &[Op], lit: Option<(&Lit, Ctx, &str)>, detail: String) {
-        let mut order = vec![hist.len() as u8];
+        let si = schemas().iter().position(|x| x.name == s.name).unwrap_or(9) as u8;
+        let mut order = vec![hist.len() as u8, si, lit.map(|(l, c, _)| 1 + (c == Ctx::OnGraph) as u8 + 2 * (l.keys.len() + l.vals.iter().flatten().count()) as u8).unwrap_or(0)];
         for o in hist {
             o.order_bytes(&mut order);
         }
-        if let Some((l, _, _)) = lit {
+        if let Some((l, c, _)) = lit {
+            order.push((c == Ctx::OnGraph) as u8);
             order.push(l.keys.len() as u8);
             order.push(l.vals.iter().flatten().count() as u8);
             for a in l.keys.iter().chain(l.vals.iter().flatten()) {
@@ -341,7 +352,7 @@ impl<'a> Worker<'a> {
         }
         let hs: Vec<String> = hist.iter().map(Op::show).collect();
         let label = match lit {
-            Some((l, _, _)) => format!("history {} ; literal {}", hs.join(" ; "), l.show(s)),
+            Some((l, c, _)) => format!("history {} ; literal {} ; {}", hs.join(" ; "), l.show(s), c.name()),
             None => format!("history {}", hs.join(" ; ")),
         };
         let replay = json!({
@@ -349,7 +360,7 @@ impl<'a> Worker<'a> {
             "history": hist.iter().map(op_json).collect::<Vec<_>>(),
             "literal": lit.map(|(l, c, kind)| json!({"shape": [l.shape.bound_keys, l.shape.val_mask], "keys": l.keys.iter().map(atom_json).collect::<Vec<_>>(), "vals": l.vals.iter().map(|v| v.as_ref().map(atom_json)).collect::<Vec<_>>(), "context": c.name(), "kind": kind})),
         });
-        self.bad.offer(&format!("{} {group}", s.name), &order, || label.clone(), || format!("{label}: {detail}"), || replay);
+        self.bad.offer(&group, &order, || format!("schema {} ; {label}", s.name), || format!("fact {}[{}]=>{{{}}}: {label}: {detail}", s.name, s.keys.iter().map(|(n, t)| format!("{n} {}", t.policy())).collect::<Vec<_>>().join(", "), s.vals.iter().map(|(n, t)| format!("{n} {}", t.policy())).collect::<Vec<_>>().join(", ")), || replay);
     }
 
     /// Applies one fact-changing command to the real graph and the model; checks the Done effect
@@ -376,7 +387,10 @@ impl<'a> Worker<'a> {
         }
         op.apply(m);
         self.states.insert((si, m.clone()));
-        self.check_listing(s, g, m, hist, op.kind())
+        // the raw listing is a second observation; a mismatch is reported but the history goes on,
+        // so that the policy-level observations are still made
+        self.check_listing(s, g, m, hist, op.kind());
+        true
     }
 
     fn check_listing(&mut self, s: &Schema, g: &Graph, m: &Model, hist: &[Op], after: &str) -> bool {
@@ -422,10 +436,10 @@ impl<'a> Worker<'a> {
         let name = format!("{pre}_{lf}_{}", l.shape.suffix());
         let res = if ctx == Ctx::Ephemeral { self.sys.ephemeral(g, &name, l.args(tag)) } else { self.sys.action(g, &name, l.args(tag)) };
         match res {
-            Err(e) => self.fail(s, format!("query command fails ({})", ctx.name()), hist, Some((l, ctx, "query")), e),
+            Err(e) => self.fail(s, "query command fails".to_string(), hist, Some((l, ctx, "query")), e),
             Ok(eff) => {
                 if eff.len() != 1 || eff[0].name.as_str() != format!("Obs{}", s.name) || field(&eff[0], "tag").ok() != Some(&Value::Int(tag)) {
-                    self.fail(s, format!("query command emits unexpected effects ({})", ctx.name()), hist, Some((l, ctx, "query")), format!("{eff:?}"));
+                    self.fail(s, "query command emits unexpected effects".to_string(), hist, Some((l, ctx, "query")), format!("{eff:?}"));
                 } else {
                     self.compare_obs(s, &eff[0], &want, n, hist, l, ctx);
                 }
@@ -441,7 +455,11 @@ impl<'a> Worker<'a> {
         let name = format!("{pre}m_{lf}_{}", l.shape.suffix());
         let res = if ctx == Ctx::Ephemeral { self.sys.ephemeral(g, &name, l.args(tag)) } else { self.sys.action(g, &name, l.args(tag)) };
         match res {
-            Err(e) => self.fail(s, format!("map action fails ({})", ctx.name()), hist, Some((l, ctx, "map")), e),
+            Err(e) if ctx == Ctx::OnGraph && want.is_empty() && e.contains("empty perspective") => {
+                // an on-graph action that publishes nothing cannot be committed: that *is* "visited nothing"
+                self.rep.outcome("on-graph map visited nothing (nothing to commit)", 1);
+            }
+            Err(e) => self.fail(s, "map action fails".to_string(), hist, Some((l, ctx, "map")), e),
             Ok(eff) => {
                 let mut got: Vec<Fact> = Vec::new();
                 let mut err = None;
@@ -459,7 +477,7 @@ impl<'a> Worker<'a> {
                     }
                 }
                 if let Some(x) = err {
-                    self.fail(s, format!("map emits unexpected effects ({})", ctx.name()), hist, Some((l, ctx, "map")), x);
+                    self.fail(s, "map emits unexpected effects".to_string(), hist, Some((l, ctx, "map")), x);
                 } else if got != want {
                     let show = |v: &[Fact]| v.iter().map(|(k, v)| show_fact(k, v)).collect::<Vec<_>>().join(" ");
                     let mut a = got.clone();
@@ -471,7 +489,7 @@ impl<'a> Worker<'a> {
                     } else {
                         "map visits the wrong facts"
                     };
-                    self.fail(s, format!("{class} ({})", ctx.name()), hist, Some((l, ctx, "map")), format!("store {}; visited [{}], model [{}]", m.show(), show(&got), show(&want)));
+                    self.fail(s, class.to_string(), hist, Some((l, ctx, "map")), format!("store {}; visited [{}], model [{}]", m.show(), show(&got), show(&want)));
                 } else {
                     self.rep.outcome(&format!("map visited {}", want.len().min(3)), 1);
                 }
@@ -510,25 +528,25 @@ impl<'a> Worker<'a> {
                 Ok(Some(f)) if Some(f) != first.as_ref() && want.contains(f) => "query returns a match that is not the first in key order",
                 _ => "query result differs from the model",
             };
-            checks.push((format!("{class} ({} {place})", ctx.name()), got.map(|g| g == first), detail));
+            checks.push((format!("{class} [{place}]"), got.map(|g| g == first), detail));
         }
         for (fname, place) in [("e", "command"), ("ae", "action")] {
             let got = b(fname);
-            checks.push((format!("exists differs from the model ({} {place})", ctx.name()), got.clone().map(|g| g == (n > 0)), format!("got {got:?}, model {}", n > 0)));
+            checks.push((format!("exists differs from the model [{place}]"), got.clone().map(|g| g == (n > 0)), format!("got {got:?}, model {}", n > 0)));
         }
         {
             let got = i("ac");
-            checks.push((format!("count_up_to differs from the model ({} action)", ctx.name()), got.clone().map(|g| g == n.min(3)), format!("count_up_to 3: got {got:?}, model {}", n.min(3))));
+            checks.push(("count_up_to differs from the model [action]".to_string(), got.clone().map(|g| g == n.min(3)), format!("count_up_to 3: got {got:?}, model {}", n.min(3))));
         }
         for lim in LIMITS {
             let got = i(&format!("c{lim}"));
-            checks.push((format!("count_up_to differs from the model ({} command)", ctx.name()), got.clone().map(|g| g == n.min(lim)), format!("count_up_to {lim}: got {got:?}, model {} ({n} matches)", n.min(lim))));
+            checks.push(("count_up_to differs from the model [command]".to_string(), got.clone().map(|g| g == n.min(lim)), format!("count_up_to {lim}: got {got:?}, model {} ({n} matches)", n.min(lim))));
             let got = b(&format!("al{lim}"));
-            checks.push((format!("at_least differs from the model ({} command)", ctx.name()), got.clone().map(|g| g == (n >= lim)), format!("at_least {lim}: got {got:?}, model has {n} matches")));
+            checks.push(("at_least differs from the model [command]".to_string(), got.clone().map(|g| g == (n >= lim)), format!("at_least {lim}: got {got:?}, model has {n} matches")));
             let got = b(&format!("am{lim}"));
-            checks.push((format!("at_most differs from the model ({} command)", ctx.name()), got.clone().map(|g| g == (n <= lim)), format!("at_most {lim}: got {got:?}, model has {n} matches")));
+            checks.push(("at_most differs from the model [command]".to_string(), got.clone().map(|g| g == (n <= lim)), format!("at_most {lim}: got {got:?}, model has {n} matches")));
             let got = b(&format!("ex{lim}"));
-            checks.push((format!("exactly differs from the model ({} command)", ctx.name()), got.clone().map(|g| g == (n == lim)), format!("exactly {lim}: got {got:?}, model has {n} matches")));
+            checks.push(("exactly differs from the model [command]".to_string(), got.clone().map(|g| g == (n == lim)), format!("exactly {lim}: got {got:?}, model has {n} matches")));
         }
         self.rep.count("query_kind_results_compared", checks.len() as u64);
         self.rep.outcome(&format!("query matched {} facts", n.min(4)), 1);
@@ -539,7 +557,7 @@ impl<'a> Worker<'a> {
             match ok {
                 Ok(true) => {}
                 Ok(false) => self.fail(s, group, hist, Some((l, ctx, "query")), detail),
-                Err(x) => self.fail(s, format!("query observation cannot be read ({})", ctx.name()), hist, Some((l, ctx, "query")), x),
+                Err(x) => self.fail(s, "query observation cannot be read".to_string(), hist, Some((l, ctx, "query")), x),
             }
         }
     }
@@ -630,6 +648,29 @@ fn fact_set_case(w: &mut Worker, si: usize, s: &Schema, facts: &[Fact], lits: &[
     let hist: Vec<Op> = facts.iter().map(|(k, v)| Op::Mk(k.clone(), v.clone())).collect();
     let Some((mut g, m)) = build(w, si, s, &hist) else { return };
     w.rep.count("fact_sets", 1);
+    let selected: Vec<Lit>;
+    let lits: &[Lit] = if w.all_literals {
+        lits
+    } else {
+        // quick tier: every shape and every value binding, but bound key prefixes only from the
+        // prefixes of the stored facts plus the first two absent prefixes of each length
+        let mut absent_seen: BTreeMap<usize, BTreeSet<&Vec<Atom>>> = BTreeMap::new();
+        let mut keep: BTreeSet<&Vec<Atom>> = BTreeSet::new();
+        for l in lits {
+            if l.keys.is_empty() || facts.iter().any(|(k, _)| k[..l.keys.len()] == l.keys[..]) {
+                keep.insert(&l.keys);
+            } else {
+                let e = absent_seen.entry(l.keys.len()).or_default();
+                if e.len() < 2 || e.contains(&l.keys) {
+                    e.insert(&l.keys);
+                    keep.insert(&l.keys);
+                }
+            }
+        }
+        selected = lits.iter().filter(|l| keep.contains(&l.keys)).cloned().collect();
+        &selected
+    };
+    w.rep.count("literals_evaluated", lits.len() as u64);
     for l in lits {
         w.observe(s, &mut g, &m, &hist, l, Ctx::Ephemeral);
     }
@@ -719,7 +760,7 @@ fn cud_case(w: &mut Worker, si: usize, s: &Schema, hist: &[Op], end_lits: &[Lit]
 // ---------------------------------------------------------------------------------------------
 
 enum Case {
-    Set { si: usize, facts: Vec<Fact>, on_graph: bool },
+    Set { ui: usize, facts: Vec<Fact>, on_graph: bool },
     Cud { si: usize, hist: Vec<Op> },
 }
 
@@ -756,8 +797,28 @@ pub fn run(args: &Args) {
     rep.set("policy_compile_ms", t0.elapsed().as_millis() as u64);
     let thorough = args.tier == mcx::Tier::Thorough;
     let ss = schemas();
-    let alphas: Vec<Alphabet> = ss.iter().map(|s| alphabet(s, thorough)).collect();
-    let lits: Vec<Vec<Lit>> = ss.iter().zip(&alphas).map(|(s, a)| all_literals(s, a)).collect();
+    // universes: (schema, alphabet, literals, max stored facts, all insertion orders?)
+    struct Universe {
+        si: usize,
+        alpha: Alphabet,
+        lits: Vec<Lit>,
+        max_facts: usize,
+        all_orders: bool,
+        label: &'static str,
+    }
+    let mut unis: Vec<Universe> = Vec::new();
+    for (si, s) in ss.iter().enumerate() {
+        let alpha = alphabet(s, false);
+        let lits = all_literals(s, &alpha);
+        unis.push(Universe { si, alpha, lits, max_facts: 3, all_orders: thorough, label: "boundary" });
+    }
+    if thorough {
+        for (si, s) in ss.iter().enumerate() {
+            let alpha = alphabet(s, true);
+            let lits = all_literals(s, &alpha);
+            unis.push(Universe { si, alpha, lits, max_facts: 2, all_orders: true, label: "wide" });
+        }
+    }
 
     if let Some(r) = crate::util::load_replay(args) {
         let si = ss.iter().position(|s| Some(s.name) == r["schema"].as_str()).unwrap_or_else(|| mcx::machinery_error("C29 replay: unknown schema"));
@@ -785,36 +846,34 @@ pub fn run(args: &Args) {
 
     // ---- build the case list
     let mut cases: Vec<Case> = Vec::new();
-    let max_facts = 3usize;
-    for (si, (s, a)) in ss.iter().zip(&alphas).enumerate() {
+    for (ui, u) in unis.iter().enumerate() {
+        let a = &u.alpha;
         let keys = all_keys(a);
-        // thorough widens the alphabets; bound the number of sets by limiting set size for the widest schema
-        let set_size = if thorough && keys.len() > 40 { 2 } else { max_facts };
-        for sub in subsets_up_to(keys.len(), set_size) {
-            // value variants: alternating tuples / all the same tuple (/ rotated for 3-tuple alphabets)
-            let nvar = if sub.is_empty() { 1 } else { 2 };
+        for sub in subsets_up_to(keys.len(), u.max_facts) {
+            // value variants: alternating tuples / all the same tuple
+            let nvar = if sub.is_empty() || (!thorough && sub.len() > 2) { 1 } else { 2 };
             for var in 0..nvar {
-                let mut facts: Vec<Fact> = sub.iter().enumerate().map(|(j, &ki)| (keys[ki].clone(), a.vals[if var == 0 { j % a.vals.len() } else { (a.vals.len() - 1).min(1) }].clone())).collect();
-                // insertion order: descending by key (never the key order for ≥ 2 facts)
+                let mut facts: Vec<Fact> = sub.iter().enumerate().map(|(j, &ki)| (keys[ki].clone(), a.vals[if var == 0 { j % a.vals.len() } else { 1 }].clone())).collect();
+                // insertion order: reversed (never the key order for ≥ 2 facts of the boundary alphabets)
                 facts.reverse();
-                if thorough && facts.len() == 3 && var == 0 {
-                    // all insertion orders
+                if u.all_orders && facts.len() >= 2 && var == 0 {
                     let base = facts.clone();
-                    mcx::enumerate::permutations(3, |p| {
-                        if p != [0, 1, 2] {
-                            cases.push(Case::Set { si, facts: p.iter().map(|&i| base[i].clone()).collect(), on_graph: false });
+                    mcx::enumerate::permutations(base.len(), |p| {
+                        if p.iter().enumerate().any(|(i, &x)| i != x) {
+                            cases.push(Case::Set { ui, facts: p.iter().map(|&i| base[i].clone()).collect(), on_graph: false });
                         }
                     });
                 }
-                cases.push(Case::Set { si, facts, on_graph: var == 0 });
+                let on_graph = var == 0 && (thorough || facts.len() <= 2);
+                cases.push(Case::Set { ui, facts, on_graph });
             }
         }
-        let _ = s;
     }
     let cud_depth = 3;
     let cud_keys = args.tier.pick(2, 3);
     let mut cud_alphabet_sizes = Vec::new();
-    for (si, (s, a)) in ss.iter().zip(&alphas).enumerate() {
+    for u in unis.iter().filter(|u| u.label == "boundary") {
+        let (si, s, a) = (u.si, &ss[u.si], &u.alpha);
         let ops = cud_ops(s, a, cud_keys);
         cud_alphabet_sizes.push(ops.len());
         for hist in cud_histories(&ops, cud_depth) {
@@ -831,12 +890,16 @@ pub fn run(args: &Args) {
         .map(|cs| {
             mcx::quiet_panics();
             let mut w = Worker::new(&rep, &machine, args.seed);
+            w.all_literals = thorough;
             for c in cs {
                 match c {
-                    Case::Set { si, facts, on_graph } => {
-                        fact_set_case(&mut w, *si, &ss[*si], facts, &lits[*si], *on_graph);
-                        if facts.len() == 3 && *on_graph && w.rep.counter("fact_sets") % 97 == 1 {
-                            let l = &lits[*si][lits[*si].len() / 2];
+                    Case::Set { ui, facts, on_graph } => {
+                        let si = &unis[*ui].si;
+                        let lits = &unis;
+                        let lits: Vec<&Vec<Lit>> = lits.iter().map(|u| &u.lits).collect();
+                        fact_set_case(&mut w, *si, &ss[*si], facts, lits[*ui], *on_graph);
+                        if facts.len() == 2 && *on_graph && w.rep.counter("fact_sets") % 97 == 1 {
+                            let l = &lits[*ui][lits[*ui].len() / 2];
                             let mut m = Model::default();
                             for (k, v) in facts {
                                 m.facts.insert(k.clone(), v.clone());
@@ -848,7 +911,7 @@ pub fn run(args: &Args) {
                         // end-of-history observation: full scan, every point key of the touched keys, one value-bound scan
                         let s = &ss[*si];
                         let touched: Vec<&Vec<Atom>> = hist.iter().flat_map(op_keys).collect();
-                        let full: Vec<Lit> = lits[*si]
+                        let full: Vec<Lit> = unis[*si].lits
                             .iter()
                             .filter(|l| l.keys.is_empty() || (l.keys.len() == s.keys.len() && l.shape.val_mask == Some(0) && touched.contains(&&l.keys)))
                             .cloned()
@@ -878,9 +941,7 @@ pub fn run(args: &Args) {
         "bounds",
         json!({
             "schemas": ss.iter().map(|s| format!("{}[{}]=>{{{}}}", s.name, s.keys.iter().map(|(n, t)| format!("{n} {}", t.policy())).collect::<Vec<_>>().join(", "), s.vals.iter().map(|(n, t)| format!("{n} {}", t.policy())).collect::<Vec<_>>().join(", "))).collect::<Vec<_>>(),
-            "key_alphabet_sizes": alphas.iter().map(|a| a.keys.iter().map(Vec::len).collect::<Vec<_>>()).collect::<Vec<_>>(),
-            "max_stored_facts": max_facts,
-            "literals_per_schema": lits.iter().map(Vec::len).collect::<Vec<_>>(),
+            "universes": unis.iter().map(|u| json!({"schema": ss[u.si].name, "alphabet": u.label, "key_alphabet_sizes": u.alpha.keys.iter().map(Vec::len).collect::<Vec<_>>(), "value_tuples": u.alpha.vals.len(), "max_stored_facts": u.max_facts, "all_insertion_orders": u.all_orders, "literals": u.lits.len()})).collect::<Vec<_>>(),
             "count_limits": LIMITS,
             "cud_depth": cud_depth,
             "cud_keys": cud_keys,
